@@ -27,8 +27,8 @@ PROPS = {
               "Gx.C04.monitor_slots", "Gx.C04.rhs_slots", "Gx.C04.formals_are_permutations", "Gx.checkMonitor_sound", "Gx.checkRhs_sound"] + COMMON,
              ["Gx.Pins.orders_are_permutations", "Gx.Pins.argument_maps", "Gx.Pins.removal_flags"],
              ns.c04_run, ns.c04_case),
-    "C05": P("GotranxProofs.Properties.C05 GotranxProofs.GenValid GotranxProofs.SchemeEndToEnd GotranxProofs.EndToEndAll",
-             ["Gx.EndToEnd.euler_end_to_end", "Gx.SchemeEndToEnd.genEuler_correct", "Gx.GenValid.genEuler_valid", "Gx.C05.euler_eq_states_plus_dt_rhs", "Gx.C05.eval_eulerStore", "Gx.C05.eval_euler_printed", "Gx.C05.euler_dt_zero",
+    "C05": P("GotranxProofs.Properties.C05 GotranxProofs.GenValid GotranxProofs.SchemeEndToEnd GotranxProofs.EndToEndAll GotranxProofs.LoadEndToEndAll",
+             ["Gx.load_euler_end_to_end", "Gx.EndToEnd.euler_end_to_end", "Gx.SchemeEndToEnd.genEuler_correct", "Gx.GenValid.genEuler_valid", "Gx.C05.euler_eq_states_plus_dt_rhs", "Gx.C05.eval_eulerStore", "Gx.C05.eval_euler_printed", "Gx.C05.euler_dt_zero",
               "Gx.C05.inputs_untouched", "Gx.C05.euler_aliases", "Gx.checkScheme_sound", "Gx.checkRhs_sound_named"] + COMMON,
              ["Gx.Pins.scheme_aliases", "Gx.Pins.scheme_members_accepted"],
              ns.c05_run, ns.c05_case),
